@@ -122,20 +122,15 @@ fn canon(nv: u32, trials: u64) {
     println!("OK {trials} canonicity/gc/iteration probes over {nv} variables");
 }
 
-fn main() {
-    let a: Vec<String> = std::env::args().collect();
-    if a[1] == "canon" { canon(a[2].parse().unwrap(), a[3].parse().unwrap()); return; }
-    if a[1] == "gcseq" { gcseq(a[2].parse().unwrap(), a[3].parse().unwrap(), a[4].parse().unwrap()); return; }
-    let (api, op) = (a[1].as_str(), a[2].as_str());
-    let fa = parse(&a[3]); let fb = parse(&a[4]);
-    let var: u32 = a.get(5).map(|x| x.parse().unwrap()).unwrap_or(0);
+fn one(api: &str, op: &str, fa: &Fam, fb: &Fam, var: u32) -> Result<Fam, String> {
+    let (fa, fb) = (fa.clone(), fb.clone());
     let want = spec(op, &fa, &fb, var);
     let (got, count, members_ok, iter_ok) = if api == "arena" {
         let mut ar = ZddArena::new();
         let mut build = |ar: &mut ZddArena, f: &Fam| { let mut h = ar.empty(); for s in f { let v: Vec<u32> = s.iter().cloned().collect(); let x = ar.from_set(&v); h = ar.union(h, x); } h };
         let ha = build(&mut ar, &fa); let hb = build(&mut ar, &fb);
         let (ba, _) = to_fam(ar.iter(ha).collect()); let (bb, _) = to_fam(ar.iter(hb).collect());
-        if ba != fa || bb != fb { println!("REPRODUCED building operands with from_set/union already differs: {:?} vs {:?} / {:?} vs {:?}", ba, fa, bb, fb); std::process::exit(1); }
+        if ba != fa || bb != fb { return Err(format!("building operands with from_set/union already differs: {:?} vs {:?} / {:?} vs {:?}", ba, fa, bb, fb)); }
         let r = match op { "union" => ar.union(ha, hb), "intersection" => ar.intersection(ha, hb), "difference" => ar.difference(ha, hb),
             "product_with_optional" => ar.product_with_optional(ha, var), _ => panic!("op {op} not in arena api") };
         let (g, iok) = to_fam(ar.iter(r).collect());
@@ -146,7 +141,7 @@ fn main() {
         let build = |f: &Fam| { let mut z = Zdd::empty(); for s in f { let v: Vec<u32> = s.iter().cloned().collect(); z = z.union(&Zdd::from_set(&v)); } z };
         let za = build(&fa); let zb = build(&fb);
         let (ba, _) = to_fam(za.iter().collect()); let (bb, _) = to_fam(zb.iter().collect());
-        if ba != fa || bb != fb { println!("REPRODUCED building operands with from_set/union already differs"); std::process::exit(1); }
+        if ba != fa || bb != fb { return Err("building operands with from_set/union already differs".to_string()); }
         let r = match op { "union" => za.union(&zb), "intersection" => za.intersection(&zb), "difference" => za.difference(&zb),
             "product_with_optional" => za.product_with_optional(var), "product" => za.product(&zb), _ => panic!("op {op}") };
         let (g, iok) = to_fam(r.iter().collect());
@@ -155,8 +150,38 @@ fn main() {
         (g, c, mok, iok)
     };
     if got != want || count != want.len() || !members_ok || !iter_ok {
-        println!("REPRODUCED api={api} op={op} A={:?} B={:?} var={var}: real code returns {:?} (count {count}, contains-all-expected={members_ok}, iteration-sorted-distinct={iter_ok}), explicit sets give {:?}", fa, fb, got, want);
-        std::process::exit(1);
+        return Err(format!("api={api} op={op} A={:?} B={:?} var={var}: real code returns {:?} (count {count}, contains-all-expected={members_ok}, iteration-sorted-distinct={iter_ok}), explicit sets give {:?}", fa, fb, got, want));
     }
-    println!("OK api={api} op={op}: {:?}", got);
+    Ok(got)
+}
+
+fn main() {
+    let a: Vec<String> = std::env::args().collect();
+    if a[1] == "canon" { canon(a[2].parse().unwrap(), a[3].parse().unwrap()); return; }
+    if a[1] == "gcseq" { gcseq(a[2].parse().unwrap(), a[3].parse().unwrap(), a[4].parse().unwrap()); return; }
+    let (api, op) = (a[1].as_str(), a[2].as_str());
+    let fa = parse(&a[3]); let fb = parse(&a[4]);
+    let var: u32 = a.get(5).map(|x| x.parse().unwrap()).unwrap_or(0);
+    match one(api, op, &fa, &fb, var) {
+        Err(m) => { println!("REPRODUCED {m}"); std::process::exit(1); }
+        Ok(got) => {
+            // The solver's witness is ONE recursion step from an arbitrary cache state.  A fresh top-level call starts with an
+            // empty cache, so a defect that needs a cache entry written earlier in the same call (e.g. a confused cache key)
+            // shows only on operands whose recursion revisits sub-problems: sweep every pair of families over 3 variables.
+            let sets: Vec<BTreeSet<u32>> = (0u32..8).map(|m| (0..3).filter(|v| m >> v & 1 == 1).collect()).collect();
+            let fam = |m: u32| -> Fam { (0..8).filter(|i| m >> i & 1 == 1).map(|i| sets[i as usize].clone()).collect() };
+            let unary = op == "product_with_optional";
+            let mut n = 0usize;
+            for ma in 0u32..256 { for mb in 0u32..(if unary { 1 } else { 256 }) { for v in 0..(if unary { 4 } else { 1 }) {
+                n += 1;
+                let r = std::panic::catch_unwind(|| one(api, op, &fam(ma), &fam(mb), v));
+                match r {
+                    Err(_) => { println!("REPRODUCED api={api} op={op} A={:?} B={:?} var={v}: the real code panicked", fam(ma), fam(mb)); std::process::exit(1); }
+                    Ok(Err(m)) => { println!("REPRODUCED (sweep over all families of 3 variables) {m}"); std::process::exit(1); }
+                    Ok(Ok(_)) => {}
+                }
+            } } }
+            println!("OK api={api} op={op}: {:?}; sweep of {n} operand combinations over 3 variables agrees with explicit sets", got);
+        }
+    }
 }
